@@ -21,6 +21,7 @@ ALPHABETS = [
     "&<>'\" amp;lt; ]]> <!-- --> %20 \\ ",
     "😀🎬 ​  emoji",
     " leading and trailing ",
+    "e\u0301a\u0308o\u0302\u212b\u2126n\u0303 x",     # decomposed sequences and singleton equivalents (not NFC-stable)
 ]
 
 
